@@ -14,7 +14,7 @@ import (
 var hookPoints = []string{
 	"add", "serve.done", "serve.end", "render.begin", "render.requested", "render.end",
 	"flush.bar", "flush.write", "hm.req", "hm.push", "hm.push.detached", "dist.collected",
-	"bar.exit", "bar.render.terminal", "early.refresh", "bar.trigger",
+	"bar.exit", "bar.render.terminal", "early.refresh", "bar.trigger", "bar.op",
 }
 
 const (
@@ -34,6 +34,7 @@ const (
 	hpBarRenderTerminal
 	hpEarlyRefresh
 	hpBarTrigger
+	hpBarOp
 	hpCount
 )
 
@@ -71,6 +72,8 @@ func pointIndex(p string) int {
 		return hpEarlyRefresh
 	case "bar.trigger":
 		return hpBarTrigger
+	case "bar.op":
+		return hpBarOp
 	}
 	return -1
 }
